@@ -156,6 +156,7 @@ class Top:
     g1 = G(s=frozenset(["one"]), t="tee")(x=a)
     g2 = G2(groups=frozenset([frozenset(["vdd", "vddio"]), frozenset(["vss", "sub", "gnd"]), frozenset(["in"]), frozenset(["outp", "outn"])]))(x=a)
     r = h.generators.Series(unit=h.primitives.R(r=1), nser=3, conns=["p", "n"])(p=a, n=a)
+    ms = h.generators.MosStack(nser=2)(d=a, g=a, s=a, b=a)   # (a unit with parallel ports next to the series pair)
 print(hashlib.sha256(h.to_proto(Top).SerializeToString(deterministic=True)).hexdigest())
 """
 
